@@ -28,7 +28,8 @@ class History:
 
 	# -- primitives
 	def tick(self) -> float:
-		self.clock += 10.0
+		# strictly increasing modification times; sub-second steps are what a save followed by an immediate re-run looks like
+		self.clock += self.r.choice([10.0, 2.0, 0.25, 0.25, 0.004])
 		return self.clock
 
 	def write_all(self) -> None:
